@@ -9,7 +9,8 @@
 (* communication, ends), in every view the checker can take of them:                                                    *)
 (*   "pp"  both pending in the state;                                                                                   *)
 (*   "ee"  both executed, in this order (what odpor::Execution holds for two consecutive events);                       *)
-(*   "ep"  the first executed, the second still pending after it (sleep sets, initials).                                *)
+(*   "ep"  the first executed, the second still pending after it (sleep sets, initials);                                *)
+(*   "en"  (extension) t1 executed ENABLES t2 (disabled before it), both executed: never independent.                    *)
 (* A transition is serialized by the application from the kernel state of the moment (SimcallObserver::serialize): a   *)
 (* pending iSend/iRecv does not know its communication (0), an executed one does; a TestComm/WaitComm carries the ends  *)
 (* known at that moment (-1 = none).  Identifiers are those of the specification (injective renaming of the real ones). *)
@@ -82,9 +83,18 @@ PairsAB(s, a, b) ==
                                [k |-> "ep", t1 |-> A1, t2 |-> Pending(sa, b), commute |-> com]} ELSE {})
            \cup (IF enBA THEN {[k |-> "ee", t1 |-> B1, t2 |-> Executed(sb, a), commute |-> com],
                                [k |-> "ep", t1 |-> B1, t2 |-> Pending(sb, a), commute |-> com]} ELSE {})
+\* Extension (same binding, signature "enables"): a transition that ENABLES another one cannot be swapped with it either.
+\* Only the executed/executed view is demanded (what the happens-before of odpor::Execution is computed from): b is a
+\* disabled transition (a *_WAIT) in s, a is enabled and its execution enables b.
+EnablesAB(s, a, b) ==
+  IF ~(En(s, a) /\ IsTrans(s, b) /\ ~EnabledMC(P, s, b)) THEN {}
+  ELSE LET sa == Do(s, a) IN
+       IF sa.aborted \/ ~En(sa, b) THEN {}
+       ELSE {[k |-> "en", t1 |-> Executed(s, a), t2 |-> Executed(sa, b), commute |-> FALSE]}
 PairsOf(s) ==
   IF s.aborted THEN {}
   ELSE UNION { PairsAB(s, p[1], p[2]) : p \in { q \in Actors(P) \X Actors(P) : q[1] < q[2] /\ En(s, q[1]) /\ En(s, q[2]) } }
+       \cup UNION { EnablesAB(s, p[1], p[2]) : p \in { q \in Actors(P) \X Actors(P) : q[1] # q[2] } }
 
 \* Each distinct (view, transition pair, verdict) is printed once per worker (register 2 holds what was printed), with
 \* the state it was first seen in as a witness (program, program counters, sub-steps).
